@@ -380,6 +380,45 @@ func pick(r *mon.R, im *Impl, rng *gen.Rng, idx int) {
 		}
 		seen[v1.Text(16)] = true
 	}
+	// scripted streams: the first candidate is q, q+1, 2^bits-1 (must be rejected / reduced, never returned) or q-1 (in range)
+	bits := q.BitLen()
+	nb := (bits + 7) / 8
+	lim := new(big.Int).Lsh(big.NewInt(1), uint(bits))
+	for _, first := range []*big.Int{new(big.Int).Set(q), new(big.Int).Add(q, big.NewInt(1)), new(big.Int).Sub(lim, big.NewInt(1)), new(big.Int).Sub(q, big.NewInt(1))} {
+		if first.Cmp(lim) >= 0 {
+			continue
+		}
+		for _, le := range []bool{false, true} {
+			head := make([]byte, nb)
+			first.FillBytes(head)
+			if le {
+				head = rev(head)
+			}
+			// pad the head to several candidate widths (some implementations draw more bytes than the modulus size)
+			script := append(append([]byte(nil), head...), rng.Bytes(4*nb+64)...)
+			rp := &replayStream{b: script}
+			var s kyber.Scalar
+			msg, panicked := mon.Try(func() { s = im.New().Pick(rp) })
+			cls := "Pick/scripted-first-candidate"
+			r.Eval(cls, fmt.Sprintf("%s|%s|%v", im.Name, first.Text(16), le), true)
+			d := map[string]any{"impl": im.Name, "first_candidate": first.Text(16), "little_endian_script": le, "script_head": mon.Hex(head)}
+			if panicked {
+				d["panic"] = msg
+				r.Violation("C02/"+im.Name+"/"+cls+"/panic", "Pick panicked on a scripted stream", d)
+				continue
+			}
+			if rp.ran {
+				continue // the implementation wanted more bytes than scripted: not judged
+			}
+			v := im.toBig(r, s, cls, func() map[string]any { return d })
+			if v.Cmp(q) >= 0 {
+				r.Violation("C02/"+im.Name+"/"+cls+"/out-of-range", "Pick returned a value >= q when the stream's first candidate is >= q", d)
+			}
+			if !s.Equal(im.New().Add(s, im.New().Zero())) {
+				r.Violation("C02/"+im.Name+"/"+cls+"/not-equal-to-itself-plus-zero", "picked scalar is not Equal to itself + 0 (non-canonical)", d)
+			}
+		}
+	}
 	r.NoteAdd("pick_distinct_values_"+im.Name, int64(len(seen)))
 	r.Op("Pick")
 	_ = idx
